@@ -152,37 +152,56 @@ MUTANTS = {
 }
 
 
+def _semantic_search(rep, m, what, data):
+    """exhaustive search of the REAL lock's own (small) state spaces for a deadlock or an exception out of the lock code:
+    turns a difference from the specification into a concrete failing schedule.  Returns True if one was found."""
+    for (R, W) in ((1, 1), (0, 2), (2, 0), (2, 1), (1, 2)):
+        found = sched.find_deadlock(m, R, W, 1)
+        if found:
+            sch, proj = found
+            crashed = [th[1] for th in proj[3] if th[0] == "crashed"]
+            d = {"readers": R, "writers": W, "schedule_of_thread_ids": sch, "real_state": sched.describe(proj), "found_because": what}
+            data["failing_schedule"] = d
+            if crashed:
+                rep.violation("C20:rwlock-exception",
+                              "the real RWLock raises %s with %d reader(s) + %d writer(s) after the lock-level schedule %s "
+                              "(the specification: every acquire/release succeeds)" % (crashed[0], R, W, sch), d)
+            else:
+                rep.violation("C20:rwlock-deadlock",
+                              "the real RWLock deadlocks with %d reader(s) + %d writer(s) after the lock-level schedule %s "
+                              "(the specification has no deadlock)" % (R, W, sch), d)
+            return True
+    return False
+
+
 def _structure_check(rep, rwmod):
     """The specification has five distinct locks per RWLock and nothing shared between two RWLocks.  A real lock
-    built differently is a difference between code and specification (a VIOLATION, not a tool failure); the walk,
-    which needs the five locks to be made by threading.Lock() when the RWLock is constructed, is then replaced by a
-    search for a deadlock on a private copy of the module loaded under the lock factory."""
+    built differently is a difference between code and specification (a VIOLATION, not a tool failure): shared lock
+    objects, or a synchronisation primitive other than Lock/RLock.  The walk is then replaced by a search for a deadlock
+    or an exception on the module (a private copy loaded under the lock factory if locks are made when it is loaded).
+    Locks that are allocated later than the constructor are fine here: the walk schedules their creation."""
     probs = sched.structure_problems(rwmod)
+    installable = True
     try:
         sched.RealRW(rwmod, 1, 1, 1).close(abandon=True)
-        installable = True
     except sched.StructureDiffers as e:
         installable = False
-        if not probs:       # distinct per-instance locks that merely are not made through `threading.Lock()`: cannot observe
+        if "not made through" in str(e) and not probs:
+            # distinct per-instance locks that merely do not come from `threading.<name>` of the module: cannot be observed
             raise MachineryError("the lock factory cannot be installed: %s" % e)
+        if "not made through" not in str(e):
+            probs.append(str(e))
     if not probs:
         return True
     data = {"differences": probs, "specification": "five distinct threading.Lock objects per RWLock (rq, nr, nw, rm, wm), none shared"}
     try:
         m = rwmod if installable else sched.load_under_factory(rwmod.__file__, "c20_rwlock_private_copy")
-        for (R, W) in ((1, 1), (2, 1), (1, 2)):
-            found = sched.find_deadlock(m, R, W, 1)
-            if found:
-                sch, proj = found
-                data["deadlock"] = {"readers": R, "writers": W, "schedule_of_thread_ids": sch, "real_state": sched.describe(proj)}
-                rep.violation("C20:rwlock-deadlock",
-                              "the real RWLock deadlocks with %d reader(s) + %d writer(s) after the lock-level schedule %s "
-                              "(the specification has no deadlock)" % (R, W, sch), data["deadlock"])
-                break
+        _semantic_search(rep, m, "structure differs", data)
     except (MachineryError, sched.StructureDiffers) as e:
-        data["deadlock_search"] = "not possible: %s" % e
+        data["search"] = "not possible: %s" % e
     rep.violation("C20:rwlock-structure-differs",
-                  "the underlying locks of the real RWLock are not five distinct per-instance locks: " + "; ".join(probs[:4]), data)
+                  "the synchronisation objects of the real RWLock are not the five distinct per-instance locks of the specification: "
+                  + "; ".join(probs[:4]), data)
     return False
 
 
@@ -232,6 +251,12 @@ def _rwlock_part(rep, tier, wd, J):
                           % (tag, len(m["schedule"])), dict(m, instance=[R, W, P]))
         if not mism and len(covered) != len(g.edges):
             raise MachineryError("edge walk covered %d of %d edges" % (len(covered), len(g.edges)))
+        if mism and not getattr(rep, "_c20_searched", False):
+            rep._c20_searched = True
+            try:
+                _semantic_search(rep, rwmod, "state mismatch in the walk", {})
+            except (MachineryError, sched.StructureDiffers):
+                pass
         total_edges += len(covered)
         rep.add_replay("RWLock bisimulation walk %s: every edge of TLC's state graph on the real RWLock" % tag, len(covered),
                        {"states": len(g.nodes), "edges": len(g.edges), "edges_walked": len(covered), "schedules_run": runs,
@@ -241,7 +266,8 @@ def _rwlock_part(rep, tier, wd, J):
             p0 = paths[len(paths) // 2]
             rep.sample({"rwlock_schedule": [g.out[s][k][0] for s, k in p0],
                         "spec_state_after": {k: str(v) for k, v in g.nodes[g.out[p0[-1][0]][p0[-1][1]][2]].items()}})
-            _walk_selftests(rep, g, info, paths, rwmod, wd)
+            if not mism and not rep.violations:      # self-tests of the machinery: only when the run is otherwise clean
+                _walk_selftests(rep, g, info, paths, rwmod, wd)
 
     # ---- readers do share: the invariant "never two readers inside" must be violated
     r = J["rw_share"]
@@ -367,6 +393,12 @@ def _ctx(name):
     c.make_other = lambda: ec.PointJacobi(c.curve, int(o.x()) * zo ** 2 % c.p, int(o.y()) * zo ** 3 % c.p, zo, c.n)
     c.gaff = ec.Point(c.curve, c.gx, c.gy, c.n)
     c.qaff = ec.Point(c.curve, c.qx, c.qy, c.n)
+    # a PUBLIC-KEY point that carries generator=True (VerifyingKey.precompute(lazy=True) / from_affine(pt, True)): its table is
+    # built lazily inside the first verification (mul_add) or multiplication
+    c.make_pq = lambda: ec.PointJacobi.from_affine(c.qaff, True)
+    pq = c.make_pq()
+    pq * 2
+    c.qtable = list(pq._PointJacobi__precompute)
     c.kA = 11 if name == "tiny" else r.randrange(2, c.n)
     if name != "tiny":
         h = r.randrange(1, c.n)
@@ -420,7 +452,19 @@ def _ctx_edwards(c, r):
 
 
 def _make(c, mode):
-    return {"table": c.make_gen, "scale": c.make_q, "jtable": c.make_jgen}[mode]()
+    return {"table": c.make_gen, "scale": c.make_q, "jtable": c.make_jgen, "ptable": getattr(c, "make_pq", None)}[mode]()
+
+
+SPEC_MODE = {"ptable": "table"}     # scenario -> mode of LazyTable
+
+
+def _ref(c, mode):
+    """(x, y, table) of the sequential run for the shared object of a scenario"""
+    if mode == "ptable":
+        return c.qx, c.qy, c.qtable
+    if mode == "scale":
+        return c.qx, c.qy, []
+    return c.gx, c.gy, c.table
 
 
 def _a_op(c, mode):
@@ -428,6 +472,8 @@ def _a_op(c, mode):
     rescale, there A calls scale() itself"""
     if c.fam == "edwards" and mode == "scale":
         return lambda o: o.scale()
+    if mode == "ptable":            # the verification path: u1*G + u2*P with P the shared public-key point
+        return lambda o: c.ref.mul_add(c.kA, o, 5)
     return lambda o: o * c.kA
 
 
@@ -450,7 +496,7 @@ def _ops(c, mode, full):
     the "scale" scenario and early in the "jtable" scenario), a read of the unrelated point again."""
     ec, es = c.ec, c.es
     ks = c.ks_full if full else c.ks
-    X = {"table": "G", "scale": "Q", "jtable": "J"}[mode]
+    X = {"table": "G", "scale": "Q", "jtable": "J", "ptable": "P"}[mode]
     if c.fam == "edwards":
         ops = [(X + ".x()", lambda o: o.x()), (X + ".y()", lambda o: o.y()), ("other.y()", lambda o: c.make_other().y()),
                (X + " == affine " + X, lambda o: o == (c.gaff if mode != "scale" else c.qaff)),
@@ -485,6 +531,21 @@ def _ops(c, mode, full):
         if c.name != "tiny":
             ops.append(("verify good signature", lambda o: es.Public_key(o, c.qaff, False).verifies(c.h, c.sig)))
             ops.append(("verify wrong hash", lambda o: es.Public_key(o, c.qaff, False).verifies(c.h + 1, c.sig)))
+    elif mode == "ptable":          # obj = public-key point with generator=True: complete verifications / mul_add first
+        if c.name != "tiny":
+            ops.append(("verify good signature (P as public point)", lambda o: es.Public_key(c.ref, o, False).verifies(c.h, c.sig)))
+            ops.append(("verify wrong hash", lambda o: es.Public_key(c.ref, o, False).verifies(c.h + 1, c.sig)))
+        ops.append(("G.mul_add(a, P, b)", lambda o: c.ref.mul_add(c.kA, o, 5)))
+        ops.append(("P.mul_add(a, G, b)", lambda o: o.mul_add(5, c.ref, c.kA)))
+        ops.append(("P.mul_add(a, fresh G, b)", lambda o: o.mul_add(3, c.make_gen(), 7)))
+        for k in ks:
+            ops.append(("%d*P" % k if k < 1000 else "k*P", (lambda o, k=k: o * k)))
+        ops.append(("k*P (rmul)", lambda o: c.kA * o))
+        ops.append(("P == affine Q", lambda o: o == c.qaff))
+        ops.append(("P + G", lambda o: o + c.ref))
+        ops.append(("P.double()", lambda o: o.double()))
+        if c.name != "tiny":
+            ops.append(("verify good signature again", lambda o: es.Public_key(c.ref, o, False).verifies(c.h, c.sig)))
     elif mode == "jtable":          # obj = generator in Jacobian form: B rescales it, then multiplies
         ops.append(("J == affine G", lambda o: o == c.gaff))
         ops.append(("J.to_affine()", lambda o: o.to_affine()))
@@ -577,11 +638,11 @@ def _stalls(c, key):
     return short, max(30.0, 200 * mx) if w == 0 else max(3.0, 60 * mx) if w == 1 else max(1.0, 25 * mx)
 
 
-def _peek(c, obj, loc):
+def _peek(c, obj, loc, mode):
     tab = getattr(obj, c.pfx + "__precompute")
     L = len(tab)
     co = getattr(obj, c.pfx + "__coords")
-    xr, yr = (c.gx, c.gy) if getattr(obj, c.pfx + "__generator") else (c.qx, c.qy)
+    xr, yr, rtab = _ref(c, mode)
     p = c.p
     try:
         if c.fam == "edwards":
@@ -594,7 +655,7 @@ def _peek(c, obj, loc):
     except Exception:
         ok, z1 = False, False
     try:
-        tab_ok = list(tab) == c.table[:L]
+        tab_ok = list(tab) == rtab[:L]
     except Exception:
         tab_ok = False
     return {"len": L, "ok": tab_ok, "same": loc is not None and tab is loc, "z1": z1, "co_ok": ok}
@@ -657,9 +718,9 @@ def _expect(c, mode, full, ops):
 
 def _event(c, task, **kw):
     name, mode, kind, opcode, deep = task["name"], task["mode"], task["kind"], task["opcode"], task["deep"]
-    e = {"tid": task["tid"], "grp": task["grp"], "op": kind, "mode": mode, "idx": task["idx"], "adj": not deep, "n": c.N}
+    e = {"tid": task["tid"], "grp": task["grp"], "op": kind, "mode": SPEC_MODE.get(mode, mode), "idx": task["idx"], "adj": not deep, "n": c.N}
     e.update(kw)
-    e.update({"_gran": "opcode" if opcode else "line", "_deep": bool(deep), "_curve": name, "_kind": kind,
+    e.update({"_scen": mode, "_gran": "opcode" if opcode else "line", "_deep": bool(deep), "_curve": name, "_kind": kind,
               "_g": _gname(name, mode, opcode, deep, kind)})
     return e
 
@@ -694,10 +755,10 @@ def _point1(task):
         loc = getattr(obj, c.pfx + "__precompute")  # A is through: its list is the published one
     try:
         L = len(loc) if loc is not None else 0      # now: A goes on appending to this very list later
-        loc_ok = loc is None or list(loc) == c.table[:L]
+        loc_ok = loc is None or list(loc) == _ref(c, mode)[2][:L]
     except Exception:
         L, loc_ok = 0, False
-    before = _peek(c, obj, loc)
+    before = _peek(c, obj, loc, mode)
     B = BRun(c, ops, obj)
     if not B.wait(short if stopped else long_):
         blocked = 1                                 # B does not get on while A is parked (or A hangs)
@@ -712,7 +773,7 @@ def _point1(task):
         who.append("A")
     got = B.results()
     bad = [ops[i][0] for i in range(len(ops)) if got[i] not in exp[i]]
-    after = _peek(c, obj, loc)
+    after = _peek(c, obj, loc, mode)
     fbad = []
     if a_done and (P.error is not None or _canon(c, P.result) != expA):
         fbad.append("A's own operation")
@@ -722,7 +783,7 @@ def _point1(task):
         who.append("B after both")
     got2 = B2.results()
     fbad += [ops[i][0] for i in range(len(ops)) if got2[i] not in exp[i]]
-    fin = _peek(c, obj, None)
+    fin = _peek(c, obj, None, mode)
     if blocked == 2:
         _ADAPT["wedged"] += 1
     return _event(c, task, loc_len=L, loc_ok=loc_ok,
@@ -754,7 +815,7 @@ def _interrupted(c, task):
         # blocked for ever) and is recorded as such without waiting for yet another set of timeouts.
         probe = BRun(c, ops, _make(c, mode))
         if not probe.wait(min(5.0, max(0.5, 20 * c.expected[key][2]))):
-            z = _peek(c, _make(c, mode), None)
+            z = _peek(c, _make(c, mode), None, mode)
             return _event(c, task, loc_len=0, loc_ok=True, pub_len=0, pub_ok=True, same=False, z1=z["z1"], co_ok=z["co_ok"],
                           b_len=0, b_ok=True, b_z1=z["z1"], b_co_ok=z["co_ok"], res=len(ops), res_bad=len(ops), blocked=2,
                           f_len=0, f_ok=True, f_z1=z["z1"], f_co_ok=z["co_ok"], f_res_bad=len(ops),
@@ -791,10 +852,10 @@ def _interrupted(c, task):
             loc = getattr(obj, c.pfx + "__precompute")
     try:
         L = len(loc) if loc is not None else 0
-        loc_ok = loc is None or list(loc) == c.table[:L]
+        loc_ok = loc is None or list(loc) == _ref(c, mode)[2][:L]
     except Exception:
         L, loc_ok = 0, False
-    before = _peek(c, obj, loc)
+    before = _peek(c, obj, loc, mode)
     B = BRun(c, ops, obj)
     if not B.wait(long_):
         blocked = 2
@@ -804,7 +865,7 @@ def _interrupted(c, task):
         short, long_ = _stalls(c, key)
     got = B.results()
     bad = [ops[i][0] for i in range(len(ops)) if got[i] not in exp[i]]
-    after = _peek(c, obj, loc)
+    after = _peek(c, obj, loc, mode)
     fresh = _make(c, mode)
     B2 = BRun(c, ops, fresh)
     if not B2.wait(long_):
@@ -812,7 +873,7 @@ def _interrupted(c, task):
         who.append("B on a fresh object")
     got2 = B2.results()
     fbad = [ops[i][0] for i in range(len(ops)) if got2[i] not in exp[i]]
-    fin = _peek(c, fresh, None)
+    fin = _peek(c, fresh, None, mode)
     if blocked == 2 and not counted:
         _ADAPT["wedged"] += 1
     return _event(c, task, loc_len=L, loc_ok=loc_ok,
@@ -851,13 +912,14 @@ def _lazy_part(rep, tier, wd, J):
     thorough = tier == "thorough"
     # (curve, scenario, kind, byte-code level, callees traced too, all multipliers, points: None = every one / number to sample)
     plan = []
-    for mode in ("table", "scale", "jtable"):
+    for mode in ("table", "scale", "jtable", "ptable"):
         plan += [("tiny", mode, "pt", False, True, True, None), ("tiny", mode, "pt", True, True, True, None),
                  ("tiny", mode, "intr", False, True, True, None)]
     plan += [("nist256p", "table", "pt", False, False, thorough, None),
              ("nist256p", "table", "pt", False, True, False, None if thorough else 150),
              ("nist256p", "scale", "pt", False, True, True, None), ("nist256p", "scale", "pt", True, True, True, None),
              ("nist256p", "jtable", "pt", False, True, False, None if thorough else 120),
+             ("nist256p", "ptable", "pt", False, False, False, None if thorough else 120),
              ("nist256p", "table", "intr", False, False, False, None if thorough else 60),
              ("nist256p", "scale", "intr", False, True, True, None),
              # twisted Edwards points (Ed25519 keys): the same two mechanisms in class PointEdwards
@@ -944,7 +1006,7 @@ def _lazy_part(rep, tier, wd, J):
     vacuity = []
     for gname, g in groups.items():
         pt = not gname.endswith(("/intr", "/fail"))
-        if pt and ("/table/" in gname or "/jtable/" in gname) and not {0, max(g["table_len_seen_by_B"])} <= set(g["table_len_seen_by_B"]):
+        if pt and ("/table/" in gname or "/jtable/" in gname or "/ptable/" in gname) and not {0, max(g["table_len_seen_by_B"])} <= set(g["table_len_seen_by_B"]):
             vacuity.append("B never saw both the empty and the complete table in %s" % gname)
         if pt and "/scale/" in gname and len(g["coords_form_seen_by_B"]) < 2:
             vacuity.append("B never saw both coordinate forms in %s" % gname)
@@ -1019,16 +1081,16 @@ def _lazy_part(rep, tier, wd, J):
             what = "after `generator-without-order * 5` failed (%s) on %s" % (e.get("_a_exc") or "no exception", e["_curve"])
         elif e["op"] == "intr":
             what = ("after thread A's operation was interrupted at %s event %d of %s (in %s, line %d) on %s, scenario %s"
-                    % (e["_gran"], e["idx"], fn, e["_in"] or "-", e["_line"], e["_curve"], e["mode"]))
+                    % (e["_gran"], e["idx"], fn, e["_in"] or "-", e["_line"], e["_curve"], e["_scen"]))
         else:
             what = ("thread A stopped at %s event %d of %s (in %s, line %d) on %s, scenario %s"
-                    % (e["_gran"], e["idx"], fn, e["_in"] or "-", e["_line"], e["_curve"], e["mode"]))
+                    % (e["_gran"], e["idx"], fn, e["_in"] or "-", e["_line"], e["_curve"], e["_scen"]))
         detail = ""
         if e["_who"]:
             detail += "; never finished: " + ", ".join(e["_who"])
         if e["_bad"] or e["_fbad"]:
             detail += "; wrong: " + ", ".join((e["_bad"] or []) + (e["_fbad"] or []))
-        rep.violation("C20:lazy-%s%s-%s" % (e["mode"], "" if e["op"] == "pt" else "-" + e["op"], clause),
+        rep.violation("C20:lazy-%s%s-%s" % (e["_scen"], "" if e["op"] == "pt" else "-" + e["op"], clause),
                       "%s: observation rejected by LazyTable (%s)%s" % (what, clause, detail), e)
     # self-tests of the machinery: only a clean run is required to pass them (a deviating library may legitimately
     # change what the recorder gets to see; it is reported above, through the specification's verdicts)
